@@ -48,7 +48,7 @@ DEFAULT_TIMEOUT = 240
 
 PROGRAMS = {
     "C02": ["clone_read_drop_2t", "clone_read_drop_3t", "clone_in_thread_then_drop", "thin_offset_union_2t",
-            "thin_2t", "offset_2t", "union_2t", "borrow_clone_arc_2t", "handoff_chain_4t", "convert_under_sharing", "nodrop_payload_2t"],
+            "thin_2t", "offset_2t", "union_2t", "borrow_clone_arc_2t", "handoff_chain_4t", "convert_under_sharing", "nodrop_payload_2t", "arcswap_cell_last_owner"],
     "C03": ["poll_get_mut_write", "poll_is_unique_then_write", "thin_with_arc_mut_get_mut", "declining_try_unwrap_vs_gates",
             "poll_get_mut_write@release", "deprecated_write_vs_reader@release"],
     "C12": ["union_shapes"],
